@@ -303,7 +303,7 @@ static bool sawRepaired() {
 
 // ------------------------------------------------------------------ fixed witness cases (lowest indices)
 static Vector vec(std::initializer_list<double> l) { Vector v(l.size()); size_t i = 0; for (double x : l) v[i++] = x; return v; }
-static const long kFixed = 16;
+static const long kFixed = 18;
 // cases that exercise sawtoothInterpolation where no stored point helps (the as-found source indexes / reads
 // what is not there): kept in their own cases so a crash is attributed exactly
 extern const long kSawEmptyCase = 12, kSawUnhelpfulCase = 13;
@@ -359,6 +359,17 @@ static void fixed_case(long idx) {
         emit_interp("lpi", vec({0, 0, 1}), s);
         if (sawRepaired()) emit_interp("saw", vec({1, 0, 0}), s);   // corner query, empty set: same out-of-range read as case 12 in the as-found source
         break; }
+    case 16: { // Pruner at magnitude 2^20: the witness LP (lp_solve ACCURACYERROR, mapped to "no witness") loses (-9,9,12,-16)*2^20
+        const double K[7][4] = {{11,-18,21,8},{-4,-19,24,7},{-1,-13,3,14},{-4,-19,24,7},{13,8,-24,1},{-9,9,12,-16},{17,13,-21,-11}};
+        for (double sc : {0x1p20, 0x1p10}) {
+            VList v; for (auto & k : K) { Vector x(4); for (int s = 0; s < 4; ++s) x[s] = k[s] * sc; v.push_back(x); }
+            v[3].array() += 0x1p-16;
+            emit_prune(v, 4); emit_ed(v, 4);
+        }
+        break; }
+    case 17: { // interpolation at magnitude 2^20 (same surfaces as cases 5 and 9, values scaled)
+        Surface s = q3; s.ubQ *= 0x1p20; s.ubV.first = {vec({0.25, 0.75, 0}), vec({0.75, 0.25, 0}), vec({0.25, 0.25, 0.5})}; s.ubV.second = {2.0 * 0x1p20, 1.0 * 0x1p20, 0.0};
+        emit_interp("lpi", vec({0.25, 0.5, 0.25}), s); emit_interp("saw", vec({0.25, 0.5, 0.25}), s); break; }
     case 15: { // dominates(): both clauses, boundaries
         emit_dom(vec({1, 1}), vec({1, 1})); emit_dom(vec({1, 1}), vec({1 + 0x1p-20, 1})); emit_dom(vec({1, 1}), vec({1 + 0x1p-19, 1}));
         emit_dom(vec({0x1p22, 0x1p22}), vec({0x1p22 + 0x1p-16, 0x1p22})); emit_dom(vec({-0x1p22, 1}), vec({-0x1p22 + 0x1p-16, 1}));
@@ -397,6 +408,7 @@ void verif::verif_case(Rng & rng, long idx, const std::string & tier) {
             std::puts("#stat tiny_coordinates 1");
             emit_interp("lpi", q2, sf); if (N > 0 || sawRepaired()) emit_interp("saw", q2, sf);
         }
+        if (rng.coin(1, 12)) { sf.ubQ *= 0x1p20; for (auto & v : sf.ubV.second) v *= 0x1p20; std::puts("#stat interp_large_magnitude 1"); }
         std::printf("#stat ishape%d 1\n#stat idim%zu 1\n#stat npts%zu 1\n", shape, S, N);
         // the as-found sawtooth indexes an empty point set when basicV == v; that defect has its own fixed case (12),
         // so random cases with an empty point set go to sawtooth only when the source is repaired
